@@ -209,7 +209,14 @@ public:
                                           member_t<Self, Policy>>&&
                                           std::is_nothrow_constructible_v<
                                               remove_cvref_t<Receiver>,
-                                              Receiver>) {
+                                              Receiver>&&
+                                              is_nothrow_connectable_v<
+                                                  member_t<Self, Source>,
+                                                  tfx_receiver<
+                                                      Func,
+                                                      Policy,
+                                                      remove_cvref_t<
+                                                          Receiver>>>) {
     return unifex::connect(
         static_cast<Self&&>(self).source_,
         tfx_receiver<Func, Policy, remove_cvref_t<Receiver>>{
